@@ -164,6 +164,9 @@ class SStr:
         c = self.concrete()
         return c.isnumeric() if c is not None else False
 
+    def isdigit(self, it=None):
+        return self.isnumeric()
+
     def splitlines(self, it=None):
         lines = [[]]
         for p in self.pieces:
@@ -197,6 +200,28 @@ def _pads(spec):
 
 def _pads_right(spec):
     return bool(spec) and spec[0] == "<"
+
+
+def percent_format(fmt, args):
+    """`fmt % args` for a concrete format string and (possibly symbolic) arguments."""
+    import re
+
+    parts = re.split(r"(%[-+ 0#]*[0-9]*(?:\.[0-9]+)?[diouxXeEfFgGs])", fmt)
+    pieces = []
+    k = 0
+    for p in parts:
+        if p.startswith("%") and len(p) > 1 and p != "%%":
+            v = args[k]
+            k += 1
+            if isinstance(v, Sym):
+                pieces.append(Tok(v, p[1:]))
+            else:
+                pieces.append(p % v)
+        elif p:
+            pieces.append(p)
+    if k != len(args):
+        raise PyRaise("TypeError", "not all arguments converted during string formatting")
+    return SStr(pieces)
 
 
 def parse_number(tok, kind):
